@@ -121,6 +121,10 @@ func (g *gen) iofaults(p *Plan) {
 		w := WScript{Opts: o, In: 0, Sinks: []SinkPlan{{Yields: g.r.Pick(70, 20, 10)}}}
 		if g.r.Chance(1, 4) {
 			w.Ops = []WOp{{Op: "readfrom", N: n, Frag: ptrFrag(g.fragFor(n))}}
+			if g.r.Chance(1, 2) {
+				// the source ReadFrom reads from fails (sticky or transient)
+				w.Ops[0].SrcFaults = []RFault{{Call: g.r.Range(1, 6+n/bs*3), Kind: g.r.PickStr("err0", "errn", "err0t")}}
+			}
 		} else {
 			w.Ops = g.writeOps(n, bs, 6)
 		}
